@@ -230,9 +230,10 @@ func c01Valid(c *vk.Ctx, r *rand.Rand, keys []KeySpec, auth service.StreamAuthen
 	payload := randBytes(r, r.Intn(600))
 	plaintext := append(sscodec.AddrIP(net.IPv4(8, 8, 8, 8), 80, false), payload...)
 	stream, _ := buildOpening(r, k, plaintext)
-	conn := &memConn{r: bytes.NewReader(stream), remote: remote, local: strAddr("192.0.2.1:9000")}
+	rd, segClass := segmented(r, stream)
+	conn := &memConn{r: rd, remote: remote, local: strAddr("192.0.2.1:9000")}
 	_, before := rec.last()
-	att := c01Attempt{Class: kind, Key: k, InList: true, Remote: remoteStr(remote), ListLen: len(keys), Pos: pos, InLen: len(stream)}
+	att := c01Attempt{Class: kind + "/" + segClass, Key: k, InList: true, Remote: remoteStr(remote), ListLen: len(keys), Pos: pos, InLen: len(stream)}
 	c.Progress("C01 %+v", att)
 	id, inner, cerr := auth(conn)
 	found, after := rec.last()
@@ -254,7 +255,7 @@ func c01Valid(c *vk.Ctx, r *rand.Rand, keys []KeySpec, auth service.StreamAuthen
 	} else if lastUser[k.Material()] == remoteStr(remote) {
 		rel = "same-as-last"
 	}
-	c.Eval(fmt.Sprintf("%s|n=%s|%s|%s|%s", kind, sizeBucket(len(keys)), k.Cipher, posClass, rel))
+	c.Eval(fmt.Sprintf("%s|n=%s|%s|%s|%s|%s", kind, sizeBucket(len(keys)), k.Cipher, posClass, rel, segClass))
 	if cerr != nil || inner == nil {
 		c.Violation("C01/valid-key-rejected", map[string]any{"attempt": att, "err": fmt.Sprint(cerr)})
 		return
@@ -423,6 +424,44 @@ func c01Concurrent(c *vk.Ctx) {
 		wg.Wait()
 		c.Count("concurrent_list_updates", updates)
 	}
+}
+
+// segReader hands out its data in pieces of the given sizes (then whatever is left): the
+// opening arrives in several TCP segments, cut anywhere around the key-search prefix.
+type segReader struct {
+	data []byte
+	cuts []int
+}
+
+func (s *segReader) Read(b []byte) (int, error) {
+	if len(s.data) == 0 {
+		return 0, io.EOF
+	}
+	n := len(s.data)
+	if len(s.cuts) > 0 {
+		n = min(n, s.cuts[0])
+		s.cuts = s.cuts[1:]
+	}
+	n = min(n, len(b))
+	copy(b, s.data[:n])
+	s.data = s.data[n:]
+	return n, nil
+}
+
+func segmented(r *rand.Rand, stream []byte) (io.Reader, string) {
+	switch r.Intn(5) {
+	case 0:
+		return &segReader{data: stream, cuts: []int{1 + r.Intn(33)}}, "seg<34"
+	case 1:
+		return &segReader{data: stream, cuts: []int{34 + r.Intn(16)}}, "seg34-49"
+	case 2:
+		cuts := make([]int, 60)
+		for i := range cuts {
+			cuts[i] = 1
+		}
+		return &segReader{data: stream, cuts: cuts}, "byte-by-byte"
+	}
+	return bytes.NewReader(stream), "whole"
 }
 
 // gatedConn blocks its first Read until released: the lookup has taken its snapshot of the
